@@ -160,8 +160,8 @@ PROPS = {
         assumptions=["global wkbcommon.MaxGeometryElements is set and restored by the harness around each decode (single goroutine)"],
     ),
     "C20": dict(
-        modules=["GeomVerif.Properties.C20"],
-        n_quick=8000, n_thorough=150000, thorough_seeds=4, min_theorems=4,
+        modules=["GeomVerif.Properties.C20", "GeomVerif.Properties.C20Threshold"],
+        n_quick=8000, n_thorough=150000, thorough_seeds=4, min_theorems=7,
         rule="coordinate sequences of 0..11 points (10%: 0..2, 10%: 50..200) with stride 2..5 (extra ordinates arbitrary bit patterns incl. NaN), on "
              "integer grids 3/6/20/1000; shapes: random, random walk with repeated points, diagonal collinear runs with outliers, horizontal with "
              "noise, closed loops (zero-length chord), x thresholds {0, 0.5, 1, 1.5, 2, sqrt2, 3, 4, 10, grid, random}. Go's indexes and the indexes of "
@@ -170,7 +170,7 @@ PROPS = {
         nontrivial=lambda op, inp: len(inp) > 60,
         trusted_base=TB_COMMON + ["modelled: SimplifyFlatCoords, dpWorker (explicit stack), distanceFromSegmentSquared",
                                   "Lean Float = IEEE-754 binary64 (bit-exact with Go on amd64); exact distances in Rat with a 1e-9 relative slack for the float decision",
-                                  "threshold and idempotence claims over whole runs are decided by the oracle on explored inputs, not yet by a theorem"],
+                                  "idempotence over whole runs is decided by the oracle on explored inputs, not yet by a theorem; the threshold theorem assumes the distance comparison is a strict weak order (no NaN distances)"],
         assumptions=["threshold >= 0 and not NaN; X,Y finite"],
     ),
     "C10": dict(
